@@ -76,6 +76,15 @@ KnownSpecs == {
   <<40,97,44,98,63,41>>,                            \* (a,b?)
   <<40,40,97,124,98,41,42,44,99,43,41>>,            \* ((a|b)*,c+)
   <<40,97,124,98,41,42>> }                          \* (a|b)*
+\* content specs that are NOT derivable from [46]-[51]: a mixed-content model that lists names must end in ")*" [51];
+\* a group mixes "," and "|" [49] [50]; an occurrence indicator is doubled [48]; a group is empty
+BadSpecs == {
+  <<40,35,80,67,68,65,84,65,124,97,41>>,   \* (#PCDATA|a)
+  <<40,35,80,67,68,65,84,65,124,97,124,98,41>>,   \* (#PCDATA|a|b)
+  <<40,35,80,67,68,65,84,65,124,97,41,43>>,   \* (#PCDATA|a)+
+  <<40,97,44,98,124,99,41>>,   \* (a,b|c)
+  <<40,97,124,98,41,42,63>>,   \* (a|b)*?
+  <<40,41>> }  \* ()
 
 \* raw fragments: each one makes the text ill-formed wherever the item may occur, whatever
 \* follows (the argument is next to each entry).
@@ -251,7 +260,7 @@ Viol(st, tok) ==
                    [] k = "notation" -> First(<<NameViol(tok.n, FALSE), ExtIdViol(tok)>>)
                    [] k = "attlist"  -> First(<<NameViol(tok.el, TRUE)>>
                                               \o [i \in 1..Len(tok.defs) |-> DefViol(tok.defs[i], st)])
-                   [] k = "elemdecl" -> NameViol(tok.n, TRUE)>>)
+                   [] k = "elemdecl" -> First(<<NameViol(tok.n, TRUE), If(tok.v \in BadSpecs, "BadContentSpec")>>)>>)
     [] k = "dtdend" -> If(ph \notin {"dtd", "content"}, "StrayDtdEnd")   \* in content "]>" is character data
     [] k = "stag" ->
          First(<<If(ph = "dtd", "MarkupInDtd"), If(ph = "epilog", "SecondRoot"),
@@ -325,7 +334,7 @@ TokenSane(tok) ==
                                    /\ (d.ty \in {"ENUM", "NOTATION"} =>
                                          d.en # <<>> /\ \A j \in 1..Len(d.en) : IsNmtoken(d.en[j])
                                                      /\ (d.ty = "NOTATION" => IsName(d.en[j])))
-       [] k = "elemdecl" -> NameSane(tok.n) /\ tok.v \in KnownSpecs
+       [] k = "elemdecl" -> NameSane(tok.n) /\ tok.v \in KnownSpecs \cup BadSpecs
        [] k = "dtdend" -> TRUE
        [] k = "stag" -> NameSane(tok.n) /\ tok.lex \in {"ok", "unquoted", "nospace"}
                         /\ \A i \in 1..Len(tok.attrs) : NameSane(tok.attrs[i].n) /\ ItemsSane(tok.attrs[i].v, "attr")
